@@ -14,6 +14,7 @@ INFO = {
  "C08": ("model_checking", "Running per-queue sums (all ancestors, gpu/cpu/mem, non-preemptible subset) recomputed by the spec from pods after every real Bind/Pipeline and compared with limits / deserved quota.", "GPU memory requests chosen so that portions are exact in milli-GPUs"),
  "C15": ("model_checking", "Closed-system runs of the real scheduler for 8 cycles; TLC checks that no canonical cluster state recurs with evictions in between (lasso detection).", "bounded runs; closed environment played by the harness"),
  "C16": ("exploration", "Comparable pending jobs (same template/queue) with shuffled priorities and creation times competing for too little capacity; TLC checks priority-then-FIFO on the allocate action's real decisions.", "comparability decided by the generator's shape tag"),
+ "C04": ("exploration", "Node-side (ready, schedulable, selector, required node affinity, taints) and pod-side (required pod affinity / anti-affinity incl. pods placed earlier in the same cycle, both directions) predicates restated in Cluster.tla and evaluated by TLC on every Bind / Pipeline of real cycles on constrained random clusters under all actions.", "topology-CRD required levels, NodePorts, volumes and DRA constraints not generated; node pool selector not varied"),
  "C05": ("exploration", "After the allocate action of every recorded real cycle TLC searches, for every untouched ready pending job of non-sharing unconstrained pods, an assignment of its tasks to nodes within truth-idle capacity (recomputed from pods, minus nominations) that respects queue limits and non-preemptible quotas; finding one is a work-conservation violation. Sampled clusters and plugin configurations.", "judged for whole-GPU / cpu-only jobs without placement constraints; reclaim/preempt progress clauses not judged"),
  "C07": ("model_checking", "Per committed reclaim statement of real cycles TLC recomputes the levelled victim queue's allocation from pods and checks it was above deserved quota or fair share, and that the reclaimer's queue stays within its (session) fair share; non-preemptible reclaimer quota is C08's invariant on the same traces.", "fair shares taken from the session (contract = C09); saturation ordering covered through C15 only"),
  "C09": ("model_checking", "TLC model-checks the integer transcription of the division algorithm against the contract on an exhaustive input grid, exports the grid, the real SetResourcesShare is run on every grid input and on seeded random inputs, and TLC evaluates the contract predicates on every recorded result. Exhaustive only within the grid; the continuous input space is sampled.", "float->milli-unit conversion tolerance 2/1000; two-level recursion re-implemented in harness"),
